@@ -48,16 +48,17 @@ def main():
                 rc2, o2 = sh('ctest --test-dir _build --timeout 300 -R "^%s$" 2>&1 | tail -5' % t, cwd=W)
                 ok = ok and '100% tests passed' in o2
             r['tests_pass_after_rerun'] = ok
-        rc, out = build_demo(W, d, meta)
+        runsh = os.path.exists(os.path.join(d, 'run.sh'))
+        rc, out = (0, '') if runsh else build_demo(W, d, meta)
         r['demo_builds_changed'] = rc == 0
-        rc, out = sh('./demo_confirm', cwd=d, timeout=300)
+        rc, out = sh('sh run.sh %s/_build/libmuscle.a' % W, cwd=d, timeout=900) if runsh else sh('./demo_confirm', cwd=d, timeout=300)
         r['demo_changed_rc'] = rc
         r['demo_changed_tail'] = out[-1500:]
         sh('git checkout -q -- .', cwd=W)
         sh('cmake --build _build -j8 --target muscle 2>&1 | tail -2', cwd=W)
-        rc, out = build_demo(W, d, meta)
+        rc, out = (0, '') if runsh else build_demo(W, d, meta)
         r['demo_builds_unchanged'] = rc == 0
-        rc, out = sh('./demo_confirm', cwd=d, timeout=300)
+        rc, out = sh('sh run.sh %s/_build/libmuscle.a' % W, cwd=d, timeout=900) if runsh else sh('./demo_confirm', cwd=d, timeout=300)
         r['demo_unchanged_rc'] = rc
         r['demo_unchanged_tail'] = out[-800:]
         r['confirmed'] = bool(r['applies'] and r['builds'] and (r['tests_pass'] or r.get('tests_pass_after_rerun')) and r['demo_changed_rc'] != 0 and r['demo_unchanged_rc'] == 0)
